@@ -416,3 +416,13 @@ Example gen_always_valid_nonvacuous : hyps ex_hist /\ hyps (fibs 41 1 2).
 Proof.
   split; [exact (proj1 gen_table_valid_nonvacuous)|exact (proj1 gen_table_deepest_admissible)].
 Qed.
+
+(* unchanged statement of the earlier MAX_CLEN = 32 development, still true *)
+Example gen_no_overflow_32 :
+  hyps (fibs 32 1 2) /\ sumZ (fibs 32 1 2) = 9227463 /\
+  (exists nz cs, gen_codesizes (fibs 32 1 2) = inr (nz, cs) /\ In 32 cs) /\
+  exists t, gen_optimal_table (fibs 32 1 2) = inr t.
+Proof.
+  destruct gen_depth_32_below_fib35 as (H & _ & H2 & H3).
+  split; [exact H|]. split; [vm_compute; reflexivity|]. split; assumption.
+Qed.
